@@ -198,6 +198,19 @@ def run(chk):
                            {'op': 'apply_batch', 'tasks': [{'idx': i} for i in range(2 * nj)], 'dur': {'kind': 'map', 'map': {}, 'default': 0.05}, 'get_timeout': 30}]})
     run_scenarios(chk, 'a pool that failed in one worker while another was busy, used again at once (DetSim)', fb, {'C13'}, nontrivial=lambda sc, o: True,
                   dist=lambda sc, o: {'n_jobs': sc['pool']['n_jobs']})
+    # a call that fails, then - on the same pool - a call in which all workers reach their lifespan at about the same moment, again and
+    # again: every worker id is held by one live instance at a time (whatever the failed call left behind must not take part)
+    fr = []
+    for _ in range(40 if chk.tier == 'quick' else 600):
+        nj = rng.choice([2, 3, 4])
+        fr.append({'seed': rng.randint(0, 10 ** 6), 'pool': {'n_jobs': nj, 'start_method': rng.choice(['fork', 'fork', 'threading']), 'pass_worker_id': True,
+                                                           'use_worker_state': rng.random() < .5}, 'relax_shape': True,
+                   'ops': [{'op': rng.choice(['map', 'imap_unordered']), 'n': rng.randint(nj, 3 * nj), 'chunk_size': 1, 'elem': 'scalar', 'fail': {'at': [rng.randrange(nj)]},
+                            'worker_lifespan': rng.choice([None, 1, 2])},
+                           {'op': rng.choice(['map', 'map_unordered', 'imap']), 'n': rng.randint(3 * nj, 6 * nj), 'chunk_size': 1, 'elem': 'scalar', 'worker_lifespan': 1,
+                            'dur': {'kind': 'map', 'map': {}, 'default': rng.choice([0.01, 0.05])}}]})
+    run_scenarios(chk, 'a failed call, then a call whose workers all reach their lifespan together (DetSim)', fr, {'C13', 'C03'}, nontrivial=lambda sc, o: True,
+                  dist=lambda sc, o: {'n_jobs': sc['pool']['n_jobs'], 'start': sc['pool']['start_method']})
     # kept-alive workers whose first call(s) bring no worker_init and a later one does: the state object the tasks have been using is the
     # one the late worker_init and everything after it gets
     li = []
